@@ -290,7 +290,7 @@ def run(chk):
             featcache[t] = r["probe"]["feat"]
     chk.cov["evaluations"] += len(ref_jobs) + len(feat_jobs)
     for t, rs in ref.items():
-        shas = {json.dumps(r.get("shas")) + str(r.get("exc")) for _, r in rs}
+        shas = {json.dumps(r.get("shas")) + str(r.get("exc")) + json.dumps(r.get("cli")) for _, r in rs}
         if len(shas) > 1:
             a, b = rs[0][1], rs[1][1]
             found.append(("two fresh processes with different PYTHONHASHSEED give different results",
@@ -336,6 +336,9 @@ def run(chk):
         # oracle 1: history independence
         if fresh is not None and "_raw" not in fresh:
             same = (pr.get("exc") == fresh.get("exc")) and (pr.get("shas", [None])[:1] == fresh.get("shas", [None])[:1])
+            if same and pr.get("cli") != fresh.get("cli"):
+                found.append(("the programmatic entry point (run_scriptplan) on the probe gives a different result after a history than in a fresh process",
+                              {"history": hist, "after_history": pr.get("cli"), "fresh": fresh.get("cli")}))
             if same and pr.get("stderrRun") != fresh.get("stderrRun"):
                 found.append(("the messages a run prints differ from those in a fresh process",
                               {"history": hist, "after_history": pr.get("stderrRun"), "fresh": fresh.get("stderrRun")}))
